@@ -18,6 +18,7 @@ DRIVERS = {
     'while_loop': {'vm': 'while_loop'},
     'iteration': {'vm': 'iteration'},
     'for_loop': {'vm': 'iteration'},
+    'switch_ops': {'vm': 'iteration'},
     'config_ops': {'vm': 'config_ops'},
     'waituntil': {'vm': 'waituntil'},
     'operators_total': {'vm': 'operators_total'},
